@@ -661,6 +661,69 @@ func ruleSQL(c *Ctx) {
 			}
 			return true
 		})
+		// the same decision however it is spelled (a flag tested at run time, or the wrapping closure chosen at compile time):
+		// the one expression "(" + .. + ")" of the arm is control-dependent — through every enclosing literal — on
+		// `ok && outerPrec > prec`, ok and prec being the results of the precedence-table lookup
+		if !(okParen && okWrap) && precObj != nil {
+			var wraps []ast.Node
+			ast.Inspect(blk, func(y ast.Node) bool {
+				if be, isB := y.(*ast.BinaryExpr); isB && be.Op == token.ADD {
+					if inner, isB2 := unparen(be.X).(*ast.BinaryExpr); isB2 && inner.Op == token.ADD {
+						if l, ok1 := c.constStr(inner.X); ok1 && l == "(" {
+							if r, ok2 := c.constStr(be.Y); ok2 && r == ")" {
+								wraps = append(wraps, be)
+							}
+						}
+					}
+				}
+				return true
+			})
+			if len(wraps) == 1 {
+				defs := c.localDefs(blk)
+				var conj []ast.Expr
+				var split func(e ast.Expr, d int)
+				split = func(e ast.Expr, d int) {
+					e = unparen(e)
+					if be, isB := e.(*ast.BinaryExpr); isB && be.Op == token.LAND {
+						split(be.X, d)
+						split(be.Y, d)
+						return
+					}
+					if id, isID := e.(*ast.Ident); isID && d < 3 {
+						if def, has := defs[c.objOf(id)]; has {
+							split(def, d+1)
+							return
+						}
+					}
+					conj = append(conj, e)
+				}
+				for _, pc := range c.condsThrough(comp, wraps[0]) {
+					if pc.pos {
+						split(pc.e, 0)
+					}
+				}
+				hasOK, hasCmp := false, false
+				for _, e := range conj {
+					if c.objOf(e) == okObj && okObj != nil {
+						hasOK = true
+					}
+					if cmp, isC := e.(*ast.BinaryExpr); isC {
+						x, y, op := cmp.X, cmp.Y, cmp.Op
+						if op == token.LSS {
+							x, y, op = y, x, token.GTR
+						}
+						if op == token.GTR && c.objOf(y) == precObj {
+							if po, isVar := c.objOf(x).(*types.Var); isVar && typeStr(po.Type()) == "parser/oper.BP" && po != precObj {
+								hasCmp = true
+							}
+						}
+					}
+				}
+				if hasOK && hasCmp {
+					okParen, okWrap = true, true
+				}
+			}
+		}
 		c.R.Check(okParen && okChild && okWrap && okTbl, "ext/sql.compile", "SQL-1 parenthesise iff outerPrec > prec; children under prec", cc.Pos(), "structure of the criteria tree is preserved under SQL precedence", "parenthesisation rule changed (must be: parens := ok && outerPrec > prec; children compiled with prec; wrap in ( ) when parens)")
 		okStatic := len(c.callsTo(&ast.BlockStmt{List: cc.Body}, "util.Assert")) >= 1 && strings.Contains(s, "Sel:Resolved")
 		c.R.Check(okStatic, "ext/sql.compile", "SQL-5 only statically resolved calls", cc.Pos(), "dynamic dispatch is refused", "dynamic calls are not refused")
